@@ -729,6 +729,9 @@ class OneHotMux(Elaboratable):
     def elaborate(self, platform):
         m = Module()
 
+        if not self.has_default and len(self.select) == 0:
+            return m  # no inputs and no default: the output is the documented zero vector
+
         m.d.comb += Value.cast(self.output).eq(
             one_hot_mux(
                 [(self.select[i], self.inputs[i]) for i in range(len(self.select))],
